@@ -1,8 +1,8 @@
 SPECIFICATION Spec
 CONSTANTS
-  ItemCodes = {"Ra", "RB", "Rb", "Ga", "O", "M"}
+  ItemCodes = {"Ra", "RB", "Rb", "Ga", "O", "M", "Q"}
   MaxLen = 3
   MaxDev = 2
-  DevTypes = {"sep", "dir", "semi", "cmt", "mline", "range"}
+  DevTypes = {"sep", "dir", "semi", "cmt", "lead", "mline", "range"}
 INVARIANT Emit
 CHECK_DEADLOCK FALSE
